@@ -83,6 +83,13 @@ def model_check(ctx, quick):
     if r.violated != "FunctionalDependency":
         raise tlc.ModelError("negative control failed: the sticky CMN mode should violate FunctionalDependency, got %s" % r.violated)
     rep.notes["negative_control"] = "Session_aswas.cfg (feat_cmn overwrites the stored CMN mode) violates FunctionalDependency as expected"
+    for cfgname, what in (("Session_dev_sums.cfg", "a partial CMN vector keeps the running sums"),
+                          ("Session_dev_beams.cfg", "narrowed beams survive the start of an utterance"),
+                          ("Session_dev_static.cfg", "a value cached in a static variable is shared by decoders with different models")):
+        r = tlc.run("MC_Session.tla", cfgname, SPEC, workers=8, timeout=900)
+        if r.violated != "FunctionalDependency":
+            raise tlc.ModelError("negative control failed: %s should violate FunctionalDependency, got %s" % (cfgname, r.violated))
+        rep.notes["negative_control_" + cfgname[12:-4]] = "%s (%s) violates FunctionalDependency as expected" % (cfgname, what)
 
 
 def classify(f, script):
@@ -165,6 +172,51 @@ def run(ctx):
                 cases.append(("throttle-%d-%d#%d" % (mh, cut, len(cases)),
                               head + ["audio cx slice gf 0 %d" % cut, "cmn " + decmatrix.hx(CMN), "mark S:fan%d:cx%d:t" % (mh, cut),
                                       "start", "feed cx 0 -1 i16 0 0", "end", "result fin"] + probe + ["free"]))
+        # the live feature computation keeps a 256-slot ring whose position carries over from utterance to utterance:
+        # the same streamed utterance 256 times in a row on one decoder (each advances the ring by an odd number of
+        # slots, so every alignment of the utterance against the ring occurs once), always after resetting the CMN state
+        # (a word-loop grammar, so that every one of them has a hypothesis whose score can differ)
+        for aud in (("t5", "mid") if quick else ("t5", "mid", "head", "t4", "cut")):
+            n = decmatrix.AUDIO_LEN[aud]
+            s = ["mark __case__"] + list(decmatrix.audio_defs()) + ["use 1", "init " + decmatrix.hx(json.dumps(cfg)),
+                 "jsgf " + decmatrix.hx("#JSGF V1.0;\ngrammar g;\npublic <s> = (go | forward | ten | meters | stop | left)+;\n")]
+            for k in range(256):
+                s += ["cmn " + decmatrix.hx(CMN), "mark S:loop:%s:ring" % aud, "start", "feed %s 0 %d i16 0 0" % (aud, n // 2),
+                      "feed %s %d %d i16 0 0" % (aud, n // 2, n - n // 2), "end", "result fin"]
+                if k % 16 == 0:
+                    s += ["alignment fin", "lattice fin 0"]
+            s.append("free")
+            cases.append(("ring-sweep-%s#%d" % (aud, len(cases)), s))
+        # two decoders with DIFFERENT acoustic models (different phone inventories) in one process, used in both
+        # orders, against each model alone; with and without filler words, so that the first word is entered in frame 0
+        frwords = ["avance", "recule", "tourne", "gauche", "droite", "avancer"]
+        frdict = os.path.join(ctx.work, "fr-small.dic")
+        with open(os.path.join(sut.REPO, "model", "fr-fr", "dict.txt"), encoding="utf-8") as f, open(frdict, "w", encoding="utf-8") as o:
+            for ln in f:
+                if ln.split(" ", 1)[0] in frwords:
+                    o.write(ln)
+        for nofill in (False, True):
+            extra = {"fsgusefiller": False} if nofill else {}
+            en = dict(cfg, **extra)
+            fr = dict({"hmm": os.path.join(sut.REPO, "model", "fr-fr"), "dict": frdict, "loglevel": "FATAL"}, **extra)
+            gen = "jsgf " + decmatrix.hx("#JSGF V1.0;\ngrammar g;\npublic <s> = (go | forward | ten | meters | stop | left)+;\n")
+            gfr = "jsgf " + decmatrix.hx("#JSGF V1.0;\ngrammar g;\npublic <s> = (avance | recule | tourne | gauche | droite | avancer)+;\n")
+            tag = "nf" if nofill else "f"
+
+            def utt(inst, lang, aud):
+                return ["use %d" % inst, "cmn " + decmatrix.hx(CMN), "mark S:%s:%s:two-%s" % (lang, aud, tag), "start",
+                        "feed %s 0 -1 i16 0 0" % aud, "end", "result fin", "alignment fin", "lattice fin 0"]
+            head = ["mark __case__"] + list(decmatrix.audio_defs())
+            for aud in ("mid", "tail"):
+                cases.append(("two-models-en-only-%s-%s#%d" % (tag, aud, len(cases)),
+                              head + ["use 1", "init " + decmatrix.hx(json.dumps(en)), gen] + utt(1, "en", aud) + ["use 1", "free"]))
+                cases.append(("two-models-fr-only-%s-%s#%d" % (tag, aud, len(cases)),
+                              head + ["use 1", "init " + decmatrix.hx(json.dumps(fr)), gfr] + utt(1, "fr", aud) + ["use 1", "free"]))
+                for order in ((1, 2), (2, 1)):
+                    body = head + ["use 1", "init " + decmatrix.hx(json.dumps(en)), gen, "use 2", "init " + decmatrix.hx(json.dumps(fr)), gfr]
+                    for inst in order + order:
+                        body += utt(inst, "en" if inst == 1 else "fr", aud)
+                    cases.append(("two-models-%s-%s-%d%d#%d" % (tag, aud, order[0], order[1], len(cases)), body + ["use 1", "free", "use 2", "free"]))
         # asking the same question again, mid-utterance, at points where the first-best ends before the newest frame
         for n in (9000, 12000, 15000, 17000, 22000, 26000, 31000):
             s = ["mark __case__"] + list(decmatrix.audio_defs()) + ["use 1", "init " + decmatrix.hx(json.dumps(cfg)),
@@ -173,7 +225,14 @@ def run(ctx):
                  "alignment p1", "end", "result fin", "alignment fin", "alignment fin", "free"]
             cases.append(("ask-again-%d#%d" % (n, len(cases)), s))
     by_id = dict(cases)
-    chunks, crashes = decmatrix.run_cases(ctx, drv, cases, per_proc=10, split_on_mark="__case__")
+    # process-wide state (a static variable shared by every decoder) only shows when the order WITHIN a process differs:
+    # the two-model cases each get a process of their own
+    solo = [c for c in cases if c[0].startswith("two-models")]
+    rest = [c for c in cases if not c[0].startswith("two-models")]
+    chunks, crashes = decmatrix.run_cases(ctx, drv, rest, per_proc=10, split_on_mark="__case__")
+    if solo:
+        c2, cr2 = decmatrix.run_cases(ctx, drv, solo, per_proc=1, split_on_mark="__case__")
+        chunks, crashes = chunks + c2, crashes + cr2
     # run_cases splits at Header events: a tour with two instances has two Headers -> glue by case
     for eid, why in crashes:
         p = decmatrix.write_replay(ctx, "crash_" + eid, by_id[eid])
@@ -184,7 +243,7 @@ def run(ctx):
     shards = {}
     for eid, ch in fch:
         m = re.match(r"(?:tour|fresh|after-reset)-([vwxm])\b", eid)
-        shards.setdefault(m.group(1) if m else ("v" if eid.startswith("ask-again") else "m" if eid.startswith("throttle") else "all"), []).append((eid, ch))
+        shards.setdefault(m.group(1) if m else ("v" if eid.startswith("ask-again") else "m" if eid.startswith("throttle") else "w" if eid.startswith("ring-sweep") else "x" if eid.startswith("two-models") else "all"), []).append((eid, ch))
     if "all" in shards:
         shards = {"all": fch}
     fails = []
